@@ -3,7 +3,74 @@ ENV = "src/environment.rs"
 RS = "src/actor/restart_strategy.rs"
 ADDR = "src/addr.rs"
 WADDR = "src/addr/weak_addr.rs"
+SVC = "src/actor/service.rs"
 MUTANTS = [
+ {"name": "svc_already_running_inverted", "why": "the C08 defect: maps through stopped", "expect": {"props": ["C08"], "obligation": "already_running.some-true-iff-alive"},
+  "edits": [(SVC, "addr.downcast_ref::<Addr<Self>>().map(Addr::running))", "addr.downcast_ref::<Addr<Self>>().map(Addr::stopped))")]},
+ {"name": "svc_register_replaces_live", "why": "register replaces a running service and refuses a dead one", "expect": {"props": ["C08"], "obligation": "register.live-instance-refused-registry-unchanged"},
+  "edits": [(SVC, "                .is_some_and(Addr::stopped)", "                .is_some_and(Addr::running)")]},
+ {"name": "svc_try_from_registry_no_liveness_filter", "why": "try_from_registry hands out a terminated instance", "expect": {"props": ["C08"], "obligation": "try_from_registry.only-live-registered"},
+  "edits": [(SVC, "            .filter(|addr| addr.running())\n", "")]},
+ {"name": "svc_check_then_act_two_locks", "why": "from_registry checks under a read lock, then spawns and inserts under a separately acquired write lock: two racing callers both spawn", "expect": {"props": ["C08"], "obligation": "lock.one-section-per-operation"},
+  "edits": [(SVC, """            let mut registry = REGISTRY.write().await; // this is the only reason for the async block
+
+            if let Some(addr) = registry
+                .get_mut(&key)
+                .and_then(|addr| addr.downcast_ref::<Addr<Self>>())
+                .map(ToOwned::to_owned)
+                .filter(Addr::running)
+            {""", """            let existing = {
+                let registry = REGISTRY.read().await;
+                registry
+                    .get(&key)
+                    .and_then(|addr| addr.downcast_ref::<Addr<Self>>())
+                    .map(ToOwned::to_owned)
+                    .filter(Addr::running)
+            };
+            let mut registry = REGISTRY.write().await;
+
+            if let Some(addr) = existing {""")]},
+ {"name": "svc_from_registry_returns_dead", "why": "from_registry returns the registered instance without checking that it is alive", "expect": {"props": ["C08"], "obligation": "from_registry.fresh-instance-registered"},
+  "edits": [(SVC, """                .map(ToOwned::to_owned)
+                .filter(Addr::running)
+            {
+                log::trace!("service already running""", """                .map(ToOwned::to_owned)
+            {
+                log::trace!("service already running""")]},
+ {"name": "svc_unregister_keeps_entry", "why": "unregister returns the entry but leaves it registered", "expect": {"props": ["C08"], "obligation": "unregister.removes-entry"},
+  "edits": [(SVC, """            .remove(&key)
+            .and_then(|addr| addr.downcast::<Addr<A>>().ok())
+            .map(|addr| *addr)""", """            .get(&key)
+            .and_then(|addr| addr.downcast_ref::<Addr<A>>())
+            .cloned()""")]},
+ {"name": "svc_spawn_not_registered", "why": "the freshly spawned instance is returned but never inserted: every lookup spawns another one", "expect": {"props": ["C08"], "obligation": "from_registry.fresh-instance-registered"},
+  "edits": [(SVC, """                handle.detach();
+                registry.insert(key, Box::new(addr.clone()));
+                debug_assert!(addr.ping().await.is_ok(), "service failed ping");
+                addr
+            }
+        }
+    }
+}
+
+#[cfg(feature = "runtime")]
+impl<A, S> SpawnableService<S> for A""", """                handle.detach();
+                debug_assert!(addr.ping().await.is_ok(), "service failed ping");
+                addr
+            }
+        }
+    }
+}
+
+#[cfg(feature = "runtime")]
+impl<A, S> SpawnableService<S> for A""")]},
+ {"name": "svc_harmless_reorder", "why": "key computed after the lock is taken, extra logging: must stay green", "expect": {"green": True, "props": ["C08"]},
+  "edits": [(SVC, """        let key = TypeId::of::<A>();
+        log::trace!("replacing service {}", std::any::type_name::<A>());
+        let mut registry = REGISTRY.write().await;""", """        log::trace!("replacing service {}", std::any::type_name::<A>());
+        let mut registry = REGISTRY.write().await;
+        let key = TypeId::of::<A>();
+        log::debug!("got the lock");""")]},
  {"name": "live_stopped_uses_peek", "why": "the C14 defect: stopped() only sees a termination some clone has polled out", "expect": {"props": ["C14"], "obligation": "addr.stopped-tells-the-truth"},
   "edits": [(ADDR, "self.running.strong_count().is_none() || self.running.clone().now_or_never().is_some()", "self.running.peek().is_some()")]},
  {"name": "live_weak_stopped_uses_peek", "why": "WeakAddr::stopped reads peek()", "expect": {"props": ["C14"], "obligation": "weakaddr.stopped-tells-the-truth"},
